@@ -124,7 +124,28 @@ func ruleQuotedPattern(c *Ctx) {
 	c.rule("R17.c", "the constant fragments: the first fragment written is '^' (optionally preceded by flags such as (?s)), the last is '$'; under the case for '*' the fragment is '.*', under the case for '?' it is '.'; the skeleton ^.*.$ compiles (checked with regexp/syntax on the constants)")
 	c.rule("R17.d", "glob.MustCompile is called only with constant patterns in production code")
 	n := 0
+	// the translator behind KEYS and SCAN MATCH: what glob.Compile / glob.MustCompile reach (R17.b
+	// establishes that client patterns flow into these two only). Other entry points of the
+	// package that nothing hands a client pattern to are not the glob this property speaks of.
+	var entry []*ssa.Function
+	for _, nm := range []string{"Compile", "MustCompile"} {
+		if sp := c.P.SSAPkgs[pkgGlob]; sp != nil {
+			if f := sp.Func(nm); f != nil {
+				entry = append(entry, f)
+			}
+		}
+	}
+	globScope := c.P.repoReach(entry, func(f *ssa.Function) bool { return fnPkgPath(f) == pkgGlob })
+	for f := range globScope {
+		for _, a := range f.AnonFuncs {
+			globScope[a] = true
+		}
+	}
+	inGlobScope := func(fn *ssa.Function) bool { return len(entry) == 0 || globScope[fn] }
 	for _, fn := range c.P.RepoFuncs(pkgGlob) {
+		if !inGlobScope(fn) {
+			continue
+		}
 		allInstrs(fn, func(ins ssa.Instruction) {
 			call, ok := ins.(*ssa.Call)
 			if !ok {
@@ -151,6 +172,9 @@ func ruleQuotedPattern(c *Ctx) {
 	// re-encodes every byte >= 0x80 as a two-byte rune, so a non-ASCII literal no longer matches itself
 	nb := 0
 	for _, fn := range c.P.RepoFuncs(pkgGlob) {
+		if !inGlobScope(fn) {
+			continue
+		}
 		allInstrs(fn, func(ins ssa.Instruction) {
 			cv, ok := ins.(*ssa.Convert)
 			if !ok || !isStringType(cv.Type()) {
@@ -170,6 +194,9 @@ func ruleQuotedPattern(c *Ctx) {
 	// (or the compiling function itself when the expression is built in place)
 	var tr *ssa.Function
 	for _, fn := range c.P.RepoFuncs(pkgGlob) {
+		if !inGlobScope(fn) {
+			continue
+		}
 		allInstrs(fn, func(ins ssa.Instruction) {
 			call, ok := ins.(*ssa.Call)
 			if !ok || tr != nil {
